@@ -99,3 +99,21 @@ CHECKS["C28"] = dict(
     level_text="Complete enumeration of the configuration space and of all short hashes; wide hashes over the stated prefix-sharing families.",
     assumptions=ENUM_ASSUMPTIONS,
 )
+
+LIN_RULE = ("every schedule with <= c preemptions (c iterated from 0; per-scenario bound in coverage.bounds) of each client program; programs come from a grammar "
+            "(all 2-thread programs with 1..2 operations per thread over the operation alphabet on several sequential prefixes, modulo thread symmetry) plus curated 3-thread "
+            "and deeper programs; an outcome is the per-thread sequence of (operation, argument, result); it is non-trivial when two operations of different threads overlapped in time")
+BOOST = ["-lboost_thread", "-lboost_system"]
+
+CHECKS["C06"] = dict(
+    title="unbounded MPMC queues are linearizable FIFO",
+    units=[dict(name="queues1", src="harness/queues.cpp", cxxflags=["-DFAMILY=1"]),
+           dict(name="queues2", src="harness/queues.cpp", cxxflags=["-DFAMILY=2"]),
+           dict(name="queues3", src="harness/queues.cpp", cxxflags=["-DFAMILY=3"]),
+           dict(name="queues4", src="harness/queues.cpp", cxxflags=["-DFAMILY=4"], ldflags=BOOST)],
+    rule=LIN_RULE,
+    explanation="MSQueue, MoirQueue, BasketQueue, OptimisticQueue (HP and DHP, item counter / seq_cst variants), RWQueue (scheduler mutex and the shipped spin lock), "
+                "FCQueue (elimination on/off, std::list back end): every explored execution's call/return history (plus a sequential drain) must be linearizable to a FIFO queue",
+    design_ref="DESIGN.md 9/C06, 7.1",
+    level_text="Exhaustive within bounds on the real containers under the controlled scheduler; each complete execution is checked by a Wing-Gong linearizability search against a sequential FIFO.",
+)
